@@ -1,7 +1,7 @@
 //@ unit C13_dn
 //@ props C13 C01
 //@ strength proved-unbounded
-//@ min-verified 25
+//@ min-verified 31
 //@ assume #[derive(PartialOrd, Ord)] on the newtype Fixed orders by the i32 field (Rust derive semantics, stated as PartialOrdSpecImpl)
 //@ assume Ord::clamp is routed through the wrapper `ord_clamp` carrying std's documented contract (panics unless min <= max; result = max(min, min(self, max)))
 //@ assume axis precondition of default_normalize: min <= default <= max (the property's quantifier) and max - min < 2^31 raw units (axis range below 32768.0); beyond that Fixed::sub wraps - see known finding C13 wide axis
